@@ -20,6 +20,19 @@ func c05Unmarshal(data []byte, v interface{}) error {
 			*p = []map[string]interface{}{{"k": int8(data[4])}}
 			return nil
 		}
+		// an entry of n rows: 9n then n x (81 a1 'k' <fixint>)
+		if len(data) >= 1 && data[0] >= 0x92 && data[0] <= 0x9f && len(data) == 1+4*int(data[0]-0x90) {
+			var rows []map[string]interface{}
+			for i := 0; i < int(data[0]-0x90); i++ {
+				r := data[1+4*i : 5+4*i]
+				if r[0] != 0x81 || r[1] != 0xa1 || r[2] != 'k' || r[3] >= 0x80 {
+					return errors.New("c05: not the row shape")
+				}
+				rows = append(rows, map[string]interface{}{"k": int8(r[3])})
+			}
+			*p = rows
+			return nil
+		}
 		return errors.New("c05: not the row shape")
 	}
 	return errors.New("c05: unsupported target")
@@ -112,6 +125,50 @@ func VerifC05RawAliasing() {
 	if len(got) == WALEntryHeaderSize+env+len(orig) {
 		zz.Assert(zz.EqBytes(got[WALEntryHeaderSize+env:], orig), "the WAL holds other payload bytes than the write that was acknowledged (request buffer reused before the writer goroutine wrote the entry)")
 		zz.Assert(got[WALEntryHeaderSize] == WALEnvelopeMarker && string(got[WALEntryHeaderSize+3:WALEntryHeaderSize+env]) == "db", "envelope changed")
+	}
+	zz.Reach("end")
+}
+
+// VerifC05RecoveryBatches: one acknowledged row entry of n rows (1..4) is recovered with a
+// replay batch size of 0 (unlimited) to 3: the callbacks receive every row of the entry
+// exactly once and in order, however the entry is cut into batches (n smaller than, equal
+// to, a multiple of, or not a multiple of the batch size).
+func VerifC05RecoveryBatches() {
+	zz.ClockFixed(1700000000000000000)
+	zz.LargeAllocAs(255)
+	n := 1 + zz.Choice("rows", 4)
+	bs := zz.Choice("batch_size", 4)
+	payload := []byte{byte(0x90 + n)}
+	for i := 0; i < n; i++ {
+		payload = append(payload, 0x81, 0xa1, 'k', byte(i+1))
+	}
+	w := &Writer{entryChan: make(chan walEntry, 8)}
+	var data []byte
+	data = append(data, WALMagic...)
+	data = append(data, byte(WALVersion>>8), byte(WALVersion), WALChecksumCRC32)
+	zz.Assert(w.AppendRaw(payload) == nil, "append")
+	e := <-w.entryChan
+	data = append(data, e.data...)
+	dir := zz.TempPath("waldir")
+	if err := os.MkdirAll(dir, 0o700); err != nil {
+		panic(err)
+	}
+	if err := os.WriteFile(dir+"/arc-20231114_221320.wal", data, 0o600); err != nil {
+		panic(err)
+	}
+	var seen []int8
+	cb := func(ctx context.Context, records []map[string]interface{}) error {
+		zz.Assert(bs == 0 || len(records) <= bs, "a replay batch is larger than the configured batch size")
+		for _, r := range records {
+			seen = append(seen, r["k"].(int8))
+		}
+		return nil
+	}
+	_, err := NewRecovery(dir, zerolog.Nop()).RecoverWithOptions(context.Background(), cb, &RecoveryOptions{BatchSize: bs})
+	zz.Assert(err == nil, "recovery failed")
+	zz.Assert(len(seen) == n, "recovery did not replay every acknowledged row of the entry exactly once")
+	for i := range seen {
+		zz.Assert(seen[i] == int8(i+1), "recovery replayed the rows of an entry out of order")
 	}
 	zz.Reach("end")
 }
